@@ -47,6 +47,7 @@ Inductive input :=
 | IVerify (k : vkind) (tok : token) (t : tables)     (* verifier entry point on a token of that shape *)
 | IHandler (s : shape)                               (* request of that shape to that router / handler function *)
 | IExit (x : xshape)                                 (* valid authenticated request whose x_fault-th storage call fails *)
+| ICode (x : cshape)                                 (* redemption of a live code: stored challenge x verifier sent x client kind *)
 | IRoute (e : entry) (class : nat) (req : string)    (* arbitrary route x method x header x body; class = generator family (>0);
                                                         req = digest of the request bytes (identifies the case; never inspected) *)
 | IClient (h : helper) (a : answer) (expect : string) (t : tables)
@@ -66,6 +67,7 @@ Definition model (i : input) : observed :=
   | IVerify k tok t => OVerify (verify (time_of t) (lang_of t) true true k tok)
   | IHandler s => OHandler (handler true s)
   | IExit x => OHandler (xhandler true x)
+  | ICode x => OHandler (chandler true x)
   | IRoute _ _ _ => ORoute RSingle
   | IClient h a e t => OClient (call (time_of t) (lang_of t) true h a e)
   | IUserCode n amount dash =>
@@ -81,8 +83,14 @@ Definition spec (i : input) (o : observed) : bool :=
   | IVerify _ _ _, OVerify r => match r with VPanic => false | _ => true end
   | IHandler _, OHandler h => single h
   | IExit _, OHandler h => single h
+  | ICode _, OHandler h => single h
   | IRoute _ _ _, ORoute k => match k with RSingle => true | _ => false end
-  | IClient _ _ _ _, OClient c => match c with CPanic => false | _ => true end
+  | IClient _ a _ _, OClient c =>      (* a 200 body that is not a JSON document must come back as an error *)
+      match c with
+      | CPanic => false
+      | CRetOk => negb (a_ok a) || well_formed (a_body a)
+      | CRetErr => true
+      end
   | IUserCode _ _ _, OUserCode c => match c with KPanic => false | _ => true end
   | _, _ => false
   end.
@@ -103,7 +111,7 @@ Definition rkind_eqb (a b : rkind) : bool :=
   match a, b with RSingle, RSingle | RPanic, RPanic | RDouble, RDouble | RContinued, RContinued => true | _, _ => false end.
 Definition errcode_eqb (a b : errcode) : bool :=
   match a, b with
-  | EInvalidRequest, EInvalidRequest | EInvalidClient, EInvalidClient
+  | EInvalidRequest, EInvalidRequest | EInvalidClient, EInvalidClient | EInvalidGrant, EInvalidGrant
   | EUnsupportedGrantType, EUnsupportedGrantType | EServerError, EServerError
   | EUnauthorizedClient, EUnauthorizedClient | EAccessDenied, EAccessDenied
   | EOther, EOther | ENoCode, ENoCode => true
@@ -146,6 +154,7 @@ Definition path (i : input) (o : observed) : nat :=
       | _ => 10
       end
   | IExit x, OHandler h => match h with OFault => 17 | OGrant => 18 + (if x_fault x =? 0 then 0 else 1) | _ => 10 end
+  | ICode x, OHandler h => match h with OGrant => 40 | OResp _ EInvalidGrant => 41 | _ => 42 end
   | IRoute _ c _, _ => 20 + c
   | IClient _ a _ _, OClient c =>
       if negb (a_ok a) then 11
